@@ -1,3 +1,4 @@
 import PrqlModel.Model.Target
 import PrqlModel.Model.Lex
 import PrqlModel.Props.C18
+import PrqlModel.Props.C17
